@@ -117,7 +117,7 @@ def call(cfg, tssi, tpl, A, C, dt):
 def run_time(cfg, tier):
     W, tssi, tpl = twins(cfg)
     tally = Tally(W, [cfg["fn"]])
-    ex = Explorer(timeout_ms=30000)
+    ex = Explorer(timeout_ms=30000, push_feas=True)
     st = {}
     n, nch = cfg["n"], cfg["nch"]
 
@@ -192,7 +192,7 @@ def replay_time(cfg):
 def run_norm(cfg, tier):
     W, tssi, tpl = twins(cfg)
     tally = Tally(W, [cfg["fn"]])
-    ex = Explorer(timeout_ms=30000, max_paths=5000)
+    ex = Explorer(timeout_ms=30000, push_feas=True, max_paths=5000)
     st = {}
     n, nch = cfg["n"], cfg["nch"]
 
@@ -273,7 +273,7 @@ def run_hank(cfg, tier):
     W = World()
     tm = W.module(ssi)
     tally = Tally(W, ["build_hank"])
-    ex = Explorer(timeout_ms=60000)
+    ex = Explorer(timeout_ms=60000, push_feas=True)
     l, r, br, nd, method = cfg["l"], cfg["r"], cfg["br"], cfg["Ndat"], cfg["method"]
     st = {}
 
